@@ -176,6 +176,29 @@ func c09(r *lp.Run) {
 		}
 		specs = append(specs, s)
 	}
+	// scheme indexes are assigned per operation (first occurrence), so crossing the byte boundary of the
+	// mask needs operations that *use* more than eight schemes
+	wide := secSpec{k: 20}
+	wide.ops = append(wide.ops,
+		secOp{name: "w0", reqs: [][]int{{0, 1, 2, 3, 4, 5, 6, 7}, {8}, {0, 9}}},
+		secOp{name: "w1", reqs: [][]int{{0, 1, 2, 3, 4, 5, 6}, {7, 8}, {9, 10, 11}, {15, 16, 17}}},
+		secOp{name: "w2", reqs: [][]int{{19, 18, 17, 16, 15, 14, 13, 12, 11, 10, 9, 8, 7, 6, 5, 4, 3}, {2}}},
+		secOp{name: "w3", reqs: [][]int{{0}, {1}, {2}, {3}, {4}, {5}, {6}, {7}, {8}, {9}}})
+	for i := 0; i < r.N(3, 20); i++ {
+		var reqs [][]int
+		used := 0
+		for used < 9+rng.Intn(6) {
+			m := 1 + rng.Intn(4)
+			var alt []int
+			for j := 0; j < m; j++ {
+				alt = append(alt, (used+j)%20)
+			}
+			used += m
+			reqs = append(reqs, alt)
+		}
+		wide.ops = append(wide.ops, secOp{name: fmt.Sprintf("wr%d", i), reqs: reqs})
+	}
+	specs = append(specs, wide)
 	ks := []int{4, 8, 9, 16, 17, 20}
 	for _, k := range ks {
 		s := secSpec{k: k, global: genReqs(rng, k)}
@@ -339,6 +362,23 @@ func c09Op(r *lp.Run, rng *lp.Rand, drv *gc.Driver, spec secSpec, pkg *gc.Pkg, o
 			}
 			vectors = append(vectors, string(b))
 		}
+		// nothing presented; exactly one scheme accepted; exactly one alternative accepted; all but one
+		vectors = append(vectors, strings.Repeat("a", n))
+		for j := 0; j < n; j++ {
+			b := []byte(strings.Repeat("a", n))
+			b[j] = 'c'
+			vectors = append(vectors, string(b))
+			b = []byte(strings.Repeat("c", n))
+			b[j] = 'a'
+			vectors = append(vectors, string(b))
+		}
+		for _, alt := range local {
+			b := []byte(strings.Repeat("a", n))
+			for _, x := range alt {
+				b[x] = 'c'
+			}
+			vectors = append(vectors, string(b))
+		}
 	}
 	for _, vec := range vectors {
 		header := map[string][]string{}
@@ -440,7 +480,7 @@ const secKindsDoc = `{"openapi":"3.0.3","info":{"title":"t","version":"1"},
 
 // credential round trip: what the generated client attaches is what the generated server extracts
 func c09Kinds(r *lp.Run, rng *lp.Rand, drv *gc.Driver, pkg *gc.Pkg) {
-	secrets := []string{"secret", "a b", "tök", "x=y&z", "abc/def+ghi==", "p:w", "%41", "a;b", "\"q\"", "ü", " lead", "trail ", "a,b", "back\\slash", "tab\there", "~!@#$^*()_-"}
+	secrets := []string{"secret", "a b", "tök", "x=y&z", "abc/def+ghi==", "p:w", "%41", "a;b", "\"q\"", "ü", " lead", "trail ", "a,b", "back\\slash", "tab\there", "~!@#$^*()_-", ":", "pa:ss:word", "a:", ":b"}
 	for i := 0; i < r.N(20, 300); i++ {
 		n := 1 + rng.Intn(10)
 		b := make([]rune, n)
@@ -459,6 +499,7 @@ func c09Kinds(r *lp.Run, rng *lp.Rand, drv *gc.Driver, pkg *gc.Pkg) {
 		{"OpQuery", "KQ", func(s string) map[string]any { return map[string]any{"APIKey": s} }, func(s string) string { return fmt.Sprintf("KQ{APIKey=%q}", s) }},
 		{"OpCookie", "KC", func(s string) map[string]any { return map[string]any{"APIKey": s} }, func(s string) string { return fmt.Sprintf("KC{APIKey=%q}", s) }},
 		{"OpBasic", "HB", func(s string) map[string]any { return map[string]any{"Username": "u" + s, "Password": s} }, func(s string) string { return fmt.Sprintf("HB{Username=%q,Password=%q}", "u"+s, s) }},
+		{"OpBasic", "HB", func(s string) map[string]any { return map[string]any{"Username": "user", "Password": s} }, func(s string) string { return fmt.Sprintf("HB{Username=%q,Password=%q}", "user", s) }},
 		{"OpBearer", "HT", func(s string) map[string]any { return map[string]any{"Token": s} }, func(s string) string { return fmt.Sprintf("HT{Token=%q}", s) }},
 		{"OpOAuth", "OA", func(s string) map[string]any { return map[string]any{"Token": s} }, func(s string) string { return fmt.Sprintf("OA{Token=%q,Scopes=[\"read\",\"write\"]}", s) }},
 	}
@@ -490,7 +531,7 @@ func c09Kinds(r *lp.Run, rng *lp.Rand, drv *gc.Driver, pkg *gc.Pkg) {
 				// the client refused to send a credential it cannot carry: allowed
 			case k.scheme == "KC" && !cookieValueSafe(s):
 				r.Known(lp.PropFail{Property: "C09", Class: "K10", What: "apiKey-in-cookie credential with bytes outside the cookie-value set is altered in transit", Input: in, Observed: got, Expected: want})
-			case k.scheme == "HB" && strings.Contains("u"+s, ":"):
+			case k.scheme == "HB" && strings.Contains(fmt.Sprint(k.cred(s)["Username"]), ":"):
 				r.Known(lp.PropFail{Property: "C09", Class: "K11", What: "basic-auth user name containing ':' is split differently by the server", Input: in, Observed: got, Expected: want})
 			case (k.scheme == "KH" || k.scheme == "HT" || k.scheme == "OA") && s != strings.Trim(s, " \t"):
 				r.Known(lp.PropFail{Property: "C09", Class: "K4", What: "leading/trailing blank of a header-carried credential is trimmed by HTTP", Input: in, Observed: got, Expected: want})
